@@ -377,7 +377,7 @@ F('c18-move-realpath', {'C18': ['R18.3', 'R18.2'], 'C01': ['R01.6']}, [(PUTDIR,
   "    fs.move(os.path.normpath(src), dest)", "    fs.move(fs.realpath(os.path.normpath(src)), dest)")],
   'move acts on the resolved path')
 F('c18-volume-of-entry', {'C05': ['R05.3'], 'C07': ['R07.4']}, [('trashcli/put/fs/volume_of_parent.py',
-  "        parent_realpath = ParentRealpathFs(self.fs).parent_realpath(path)\n        return self.fs.volume_of(parent_realpath)",
+  "        parent_realpath = ParentRealpathFs(self.fs).parent_realpath(\n            os.path.normpath(path))\n        return self.fs.volume_of(parent_realpath)",
   "        return self.fs.volume_of(self.fs.realpath(path))")],
   'volume of the entry computed from the resolved entry instead of its parent')
 F('c18-restore-copies', {'C18': ['R18.5']}, [('trashcli/restore/file_system.py',
@@ -597,7 +597,7 @@ F('c20-scanner-volume-of-top', {'C20': ['R20.3']}, [('trashcli/trash_dirs_scanne
   "                    yield trash_dir_found, TrashDir(top_trash_dir_path, volume)",
   "                    yield trash_dir_found, TrashDir(top_trash_dir_path, '/')")],
   'scanner pairs $topdir/.Trash/$uid with "/"')
-F('c09-suffix-info', {'C09': ['R09.1']}, [(TDR, "            if entry.endswith('.trashinfo'):", "            if entry.endswith('.info'):")],
+F('c09-suffix-info', {'C09': ['R09.1']}, [(TDR, "            if entry.endswith('.trashinfo') and \\\n", "            if entry.endswith('.info') and \\\n")],
   'readers look for *.info')
 F('c09-files-dir-renamed', {'C09': ['R09.1'], 'C11': ['R11.2'], 'C15': ['R15.2']}, [('trashcli/lib/path_of_backup_copy.py',
   "return os.path.join(trash_dir, 'files', basename)", "return os.path.join(trash_dir, 'file', basename)")],
@@ -614,8 +614,8 @@ F('c09-rm-own-scanner', {'C09': ['R09.4']}, [('trashcli/rm/rm_cmd.py',
   "        import os\n        from trashcli.trash_dirs_scanner import TrashDir\n        mine = [(trash_dir_found, TrashDir(os.path.join(v, '.Trash-%s' % uid), v)) for v in self.volumes_listing.list_volumes(self.environ)]\n        for event, args in mine:")],
   'trash-rm enumerates trash directories on its own')
 S('c09-constants-hoisted', ['C09', 'C11', 'C15'], [(TDR,
-  "        info_dir = os.path.join(path, 'info')\n        for entry in self.dir_reader.entries_if_dir_exists(info_dir):\n            if entry.endswith('.trashinfo'):",
-  "        INFO = 'info'\n        SUFFIX = '.trashinfo'\n        info_dir = os.path.join(path, INFO)\n        for entry in self.dir_reader.entries_if_dir_exists(info_dir):\n            if entry.endswith(SUFFIX):")],
+  "        info_dir = os.path.join(path, 'info')\n        for entry in self.dir_reader.entries_if_dir_exists(info_dir):\n            # '.trashinfo', '..trashinfo' and '...trashinfo' would name files/,\n            # files/. and files/.. (the trash directory itself) as their payload\n            if entry.endswith('.trashinfo') and \\\n",
+  "        INFO = 'info'\n        SUFFIX = '.trashinfo'\n        info_dir = os.path.join(path, INFO)\n        for entry in self.dir_reader.entries_if_dir_exists(info_dir):\n            if entry.endswith(SUFFIX) and \\\n")],
   'layout constants through locals')
 
 # ------------------------------------------------------------------ C07
@@ -919,3 +919,66 @@ F('x-list-own-collector', {'C20': ['R20.1']}, [('trashcli/parse_trashinfo/maybe_
   'list keeps the date through its own collector class')
 F('x-unquote-strict', {'C19': ['R19.1']}, [(PPATH, "unquote(line[len('Path='):])", "unquote(line[len('Path='):], errors='strict')")],
   'strict decoding error is not a ParseError: list aborts')
+
+# ------------------------------------------------------------------ rules added after the
+# second seeding round (own formulations) and regressions of the later fix: commits
+PDD = 'trashcli/parse_trashinfo/parse_deletion_date.py'
+INFOFILES = 'trashcli/restore/info_files.py'
+VOP = 'trashcli/put/fs/volume_of_parent.py'
+RARG = 'trashcli/restore/restore_arg_parser.py'
+F('y-force-skips-by-access', {'C18': ['R18.1']}, [(TRASHER,
+  "        if not self.fs.lexists(path):\n            if context.mode.can_ignore_not_existent_path():",
+  "        if not self.fs.exists(path) and context.mode.can_ignore_not_existent_path():\n            return TrashResult.Success\n        if not self.fs.lexists(path):\n            if context.mode.can_ignore_not_existent_path():")],
+  '-f skips whatever a link-following test calls absent')
+F('y-restore-skips-dotfiles', {'C09': ['R09.6']}, [(INFOFILES,
+  "                name = os.path.basename(info_file)\n",
+  "                name = os.path.basename(info_file)\n                if name.startswith('.#'):\n                    continue\n")],
+  'restore ignores info names starting with ".#"')
+F('y-truncate-stem', {'C17': ['R17.6']}, [(PERSISTER,
+  "        truncated_basename = basename[0:len(basename) - len(after_basename)]",
+  "        truncated_basename = basename[0:len(basename) - len(suffix)]")],
+  'too-long names are shortened by the suffix length only (still too long)')
+F('y-bounded-read', {'C03': ['R03.4']}, [(FS,
+  "def _read_file(path):\n    with open(path) as f:\n        return f.read()",
+  "def _read_file(path):\n    with open(path) as f:\n        return f.read(4096)")],
+  'readers read the first 4096 characters only')
+F('y-strip-trashee-volume', {'C02': ['R02.4']}, [(INFOCREATOR,
+  "                                                                candidate.volume)",
+  "                                                                os.path.dirname(candidate.parent_dir()))")],
+  'relative Path computed against something else than the candidate volume')
+F('y-orphans-from-snapshot', {'C10': ['R10.4']}, [(TDR,
+  "            if not self.dir_reader.exists(trashinfo_path):\n                yield file_path",
+  "            if entry + '.trashinfo' not in known:\n                yield file_path"),
+  (TDR, "        files_dir = os.path.join(path, 'files')\n", "        files_dir = os.path.join(path, 'files')\n        known = list(self.dir_reader.entries_if_dir_exists(info_dir))\n")],
+  'orphans decided from a listing of info/ taken earlier')
+F('fix14-reverted-reader', {'C11': ['R11.5']}, [(TDR,
+  "            if entry.endswith('.trashinfo') and \\\n                    entry[:-len('.trashinfo')] not in ('', '.', '..'):",
+  "            if entry.endswith('.trashinfo'):")],
+  '"...trashinfo" is an entry again (payload = trash dir)')
+F('fix14-reverted-restore', {'C11': ['R11.5']}, [(INFOFILES,
+  "                if not name.endswith('.trashinfo') or \\\n                        name[:-len('.trashinfo')] in ('', '.', '..'):",
+  "                if not name.endswith('.trashinfo'):")],
+  'restore accepts "...trashinfo" again')
+F('fix15-reverted', {'C13': ['R13.6']}, [(RARG,
+  "            path = os.path.normpath(os.path.join(curdir, parsed.path))",
+  "            path = os.path.normpath(os.path.join(curdir + os.path.sep, parsed.path))")],
+  'scope path glued with a separator again')
+F('fix16-reverted', {'C07': ['R07.4'], 'C05': ['R05.3']}, [(VOP,
+  "        parent_realpath = ParentRealpathFs(self.fs).parent_realpath(\n            os.path.normpath(path))",
+  "        parent_realpath = ParentRealpathFs(self.fs).parent_realpath(path)")],
+  'parent of "link/" is the link again')
+F('y-shared-basket', {'C19': ['R19.4'], 'C10': ['R10.2']}, [(PDD,
+  "def parse_deletion_date(contents):\n    result = Basket()\n    parser = ParseTrashInfo(on_deletion_date=result.collect)\n    parser.parse_trashinfo(contents)\n    return result.collected",
+  "_result = Basket()\n_parser = ParseTrashInfo(on_deletion_date=_result.collect)\n\n\ndef parse_deletion_date(contents):\n    _parser.parse_trashinfo(contents)\n    return _result.collected")],
+  'one Basket shared by all entries, never reset')
+F('y-restore-exists-guard', {'C18': ['R18.5']}, [('trashcli/restore/file_system.py',
+  "    def move(self, path, dest):\n        return fs.move(path, dest)",
+  "    def move(self, path, dest):\n        if not os.path.exists(path):\n            raise IOError('missing %s' % path)\n        return fs.move(path, dest)")],
+  'restore checks the payload with a link-following test')
+F('y-restore-decodes-differently', {'C20': ['R20.2'], 'C03': ['R03.1']}, [(PORIG,
+  "    path = parse_path(contents)\n", "    from six.moves.urllib.parse import unquote\n    path = unquote([l for l in contents.split('\\n') if l.startswith('Path=')][0][len('Path='):], errors='surrogateescape')\n")],
+  'restore decodes the Path with other options')
+S('y-degenerate-names-as-set', ['C11', 'C09'], [(TDR,
+  "                    entry[:-len('.trashinfo')] not in ('', '.', '..'):",
+  "                    entry not in ('.trashinfo', '..trashinfo', '...trashinfo'):")],
+  'degenerate names excluded by their full spelling')
